@@ -529,6 +529,9 @@ pub fn check_run(scn: &BScenario, run: &BRun) -> Vec<(String, String)> {
                 };
                 if !actor_was_ending {
                     v("C17 a send waits rather than fails", format!("op {:?} returned Err({e}) while the actor was alive and nobody had stopped or killed it", o.op));
+                    if timeout_of(&o.op).is_some() {
+                        v("C17 bounded call reports only real failures", format!("op {:?} returned Err({e}) although the actor was alive, nothing had failed and its deadline had not passed", o.op));
+                    }
                 }
             }
         }
